@@ -14,7 +14,43 @@ import (
 	"verifharness/hx"
 )
 
-func init() { families["c19-store"] = c19Store }
+func init() {
+	families["c19-store"] = c19Store
+	families["c19-matchers"] = c19Matchers
+}
+
+// c19Matchers: every generated term matcher against every term of the universe (and the nil term).
+func c19Matchers(r *hx.Rand, n int, out *hx.Out, _ []string) {
+	for c := 0; c < n; c++ {
+		rr := r.Fork()
+		_, _, obj := c19Universe()
+		m := c19GenMatcher(rr, obj, 3)
+		var encs []string
+		var bits strings.Builder
+		oracle := ""
+		for _, t := range obj {
+			encs = append(encs, t.enc)
+			got := m.m.MatchTerm(t.t)
+			if got {
+				bits.WriteByte('1')
+			} else {
+				bits.WriteByte('0')
+			}
+			// Equals must agree with RDF term equality
+			if eq, ok := m.m.(terms.Equals); ok && got != eq.Expected.TermEquals(t.t) {
+				oracle = "Equals disagrees with TermEquals on " + t.enc
+			}
+		}
+		encs = append(encs, "-")
+		if m.m.MatchTerm(nil) {
+			bits.WriteByte('1')
+		} else {
+			bits.WriteByte('0')
+		}
+		out.Emit(hx.Case{Kind: "K/C19/matchers", Line: "tm\t" + m.enc + "\t" + strings.Join(encs, ";"), Impl: bits.String(),
+			Class: strings.SplitN(m.enc, " ", 2)[0], NonTri: strings.Contains(m.enc, " "), Oracle: oracle, Desc: m.enc})
+	}
+}
 
 const rdfLangString = "http://www.w3.org/1999/02/22-rdf-syntax-ns#langString"
 const rdfDirLangString = "http://www.w3.org/1999/02/22-rdf-syntax-ns#dirLangString"
@@ -78,8 +114,14 @@ func c19GenMatcher(rr *hx.Rand, pool []c19Term, depth int) c19M {
 		n := rr.Intn(4)
 		var ts []rdf.Term
 		enc := fmt.Sprintf("O %d", n)
+		from := pool
+		if len(pool) >= 16 && rr.Bool() { // terms that differ in one aspect only: tag, direction, datatype, factory
+			from = hx.Pick(rr, [][]c19Term{pool[12:14], pool[14:16], pool[12:16], pool[8:10], pool[4:8]})
+			n = 2 + rr.Intn(2)
+			enc = fmt.Sprintf("O %d", n)
+		}
 		for i := 0; i < n; i++ {
-			t := hx.Pick(rr, pool)
+			t := hx.Pick(rr, from)
 			ts = append(ts, t.t)
 			enc += " " + t.enc
 		}
@@ -139,13 +181,30 @@ func c19Store(r *hx.Rand, n int, out *hx.Out, _ []string) {
 		var ops, outs []string
 		oracle := ""
 		muts, queries := 0, 0
+		type c19Used struct {
+			q   rdf.Quad
+			enc string
+			g   *c19Term
+		}
+		var used []c19Used
+		smallAt := hx.Pick(rr, []int{0, 0, 4, 8, 12, 12, 14})
+		small := rr.Chance(1, 3) // a third of the histories live in a tiny universe so that re-adds and real deletions are frequent
 		mkQuad := func() (rdf.Quad, string, *c19Term) {
+			if len(used) > 0 && rr.Chance(1, 2) { // revisit a quad used before (delete what exists, re-add what was deleted)
+				u := hx.Pick(rr, used)
+				return u.q, u.enc, u.g
+			}
 			s, p, o, g := hx.Pick(rr, subj[:3+rr.Intn(len(subj)-2)]), hx.Pick(rr, pred[:2+rr.Intn(2)]), hx.Pick(rr, obj), hx.Pick(rr, gnames)
+			if small {
+				s, p, o, g = hx.Pick(rr, subj[:3]), pred[0], hx.Pick(rr, obj[smallAt:smallAt+4]), hx.Pick(rr, gnames[:3])
+			}
 			q := rdf.Quad{Triple: rdf.Triple{Subject: s.t.(rdf.SubjectValue), Predicate: p.t.(rdf.PredicateValue), Object: o.t.(rdf.ObjectValue)}}
 			if g != nil {
 				q.GraphName = g.t.(rdf.GraphNameValue)
 			}
-			return q, c19QuadEnc(s, p, o, g), g
+			enc := c19QuadEnc(s, p, o, g)
+			used = append(used, c19Used{q, enc, g})
+			return q, enc, g
 		}
 		quadEncOf := func(q rdf.Quad) string {
 			find := func(t rdf.Term) string {
